@@ -30,7 +30,8 @@ NP_FRESH = {'array', 'zeros', 'ones', 'empty', 'arange', 'eye', 'diag', 'concate
             'argmax', 'count_nonzero', 'negative', 'multiply', 'add', 'square', 'mean', 'roll'}
 NP_ALIAS = {'asarray', 'ascontiguousarray', 'asfortranarray', 'reshape', 'transpose', 'swapaxes',
             'squeeze', 'atleast_1d', 'atleast_2d', 'ravel', 'real', 'imag', 'asanyarray',
-            'moveaxis', 'expand_dims', 'broadcast_to'}
+            'moveaxis', 'expand_dims', 'broadcast_to', 'PyArray_DATA', 'PyArray_BYTES',
+            'PyArray_GETCONTIGUOUS'}
 ALIAS_METHODS = {'reshape', 'view', 'swapaxes', 'transpose', 'squeeze', 'ravel'}
 FRESH_METHODS = {'copy_deep', 'tolist', 'flatten', 'sum', 'conjugate', 'nonzero', 'keys', 'values',
                  'items', 'get_block_sizes', 'to_ndarray', 'to_qflat', 'get_leg_labels'}
@@ -191,6 +192,8 @@ class Own:
                 return self.origin(fi, recv, depth)
             return 'U'
         if isinstance(fn, ast.Name):
+            if name == '__addr__' and c.args:
+                return self.origin(fi, c.args[0], depth)
             if name in CONSTRUCTORS:
                 return 'F'
             if name in MAY_RETURN_OPERAND:
